@@ -707,8 +707,15 @@ Definition well_formed (cd : cond) : bool :=
     | None => false
     | Some SBetween => match a with AList [_; _] => true | _ => false end
     | Some SIsNull | Some SIsNotNull => match a with AVal (VBool true) => true | _ => false end
-    | Some (SOp IN) | Some (SOp NOT_IN) => match a with AVal (VStr _) => false | _ => true end
+    | Some (SOp IN) | Some (SOp NOT_IN) => match a with AVal _ => false | AList _ => true end
     | Some (SOp _) => true
+    end
+  | CPairIter OpOther _ _ => false
+  | CPairIter (OpStr s) ik _ =>
+    match spelled (lower s) with
+    | Some (SOp IN) | Some (SOp NOT_IN) => match ik with IMap => false | _ => true end
+    | Some (SOp _) => true
+    | _ => false
     end
   end.
 
@@ -724,6 +731,13 @@ Definition meaning (c : Z) (cd : cond) : list pexpr :=
     | Some SIsNotNull, _ => [ {| pcol := c; pop := IS_NOT_NULL; pval := AVal VNull |} ]
     | Some (SOp op), _ => [ {| pcol := c; pop := op; pval := a |} ]
     | _, _ => []
+    end
+  (* an iterable value set MEANS the values it yields (a comparison keeps it as its literal, rendered as that list) *)
+  | CPairIter OpOther _ _ => []
+  | CPairIter (OpStr s) _ vs =>
+    match spelled (lower s) with
+    | Some (SOp op) => [ {| pcol := c; pop := op; pval := AList vs |} ]
+    | _ => []
     end
   end.
 
@@ -759,8 +773,23 @@ Lemma parse_one_pair c s a :
                                                       {| pcol := c; pop := LE; pval := AVal (snd lh) |} ])
   | Some SIsNull => if flag_true a then Ok [ {| pcol := c; pop := IS_NULL; pval := AVal VNull |} ] else Err EParse
   | Some SIsNotNull => if flag_true a then Ok [ {| pcol := c; pop := IS_NOT_NULL; pval := AVal VNull |} ] else Err EParse
-  | Some (SOp op) => if text_value_set op a then Err EParse else Ok [ {| pcol := c; pop := op; pval := a |} ]
+  | Some (SOp op) => if text_value_set op a then Err EParse
+                     else bind (value_set op a) (fun a' => Ok [ {| pcol := c; pop := op; pval := a' |} ])
   | None => Err EParse
+  end.
+Proof.
+  unfold parse_one, key_is, key_class, parse_op.
+  destruct (String.eqb between_key (lower s)); [reflexivity|].
+  destruct (mem_str (lower s) is_null_aliases); [reflexivity|].
+  destruct (mem_str (lower s) is_not_null_aliases); [reflexivity|].
+  destruct (assoc_str (lower s) op_table); reflexivity.
+Qed.
+
+Lemma parse_one_iter c s ik vs :
+  parse_one c (CPairIter (OpStr s) ik vs) =
+  match key_class (lower s) with
+  | Some (SOp op) => bind (value_set_iter op ik vs) (fun a' => Ok [ {| pcol := c; pop := op; pval := a' |} ])
+  | _ => Err EParse
   end.
 Proof.
   unfold parse_one, key_is, key_class, parse_op.
@@ -774,7 +803,7 @@ Qed.
 Theorem parse_one_spec c cd :
   parse_one c cd = if well_formed cd then Ok (meaning c cd) else Err EParse.
 Proof.
-  destruct cd as [a|[s|] a].
+  destruct cd as [a|[s|] a|[s|] ik vs].
   - destruct a as [[]|]; reflexivity.
   - rewrite parse_one_pair, key_class_spelled. unfold well_formed, meaning.
     destruct (spelled (lower s)) as [[| | |op]|]; [| | | |reflexivity].
@@ -782,6 +811,10 @@ Proof.
     + destruct a as [[|[]| | | | | |]|]; reflexivity.
     + destruct a as [[|[]| | | | | |]|]; reflexivity.
     + destruct op; destruct a as [[]|]; reflexivity.
+  - reflexivity.
+  - rewrite parse_one_iter, key_class_spelled. unfold well_formed, meaning.
+    destruct (spelled (lower s)) as [[| | |op]|]; try reflexivity.
+    destruct op; destruct ik; reflexivity.
   - reflexivity.
 Qed.
 
@@ -841,6 +874,8 @@ Proof.
   { destruct (flag_true a) eqn:Fl; [|discriminate]. intros [= <-]. right. right. left. split; [apply mem_str_in; auto|auto]. }
   destruct (assoc_str (lower s) op_table) as [op|] eqn:A; cbn [option_map]; [|discriminate].
   destruct (text_value_set op a) eqn:T; [discriminate|].
+  destruct (value_set op a) as [a'|] eqn:V; cbn [bind]; [|discriminate].
+  assert (a' = a) by (unfold value_set in V; destruct op, a; congruence). subst a'.
   intros [= <-]. right. right. right. exists op. auto.
 Qed.
 
@@ -1063,36 +1098,98 @@ Proof.
   - destruct (g a0); simpl; [|eauto]. destruct (IH I Ga) as [k' ->]. simpl. eauto.
 Qed.
 
-(* a SCALAR where in / not_in take a list is never "a set of one": a str is a parse error (its characters are not
-   iterated), any other scalar fails when the expression is built -- the filter is rejected by the front end, hence by
-   every API on every table (malformed_raises_everywhere) *)
+Lemma spelled_value_set s op : (op = IN \/ op = NOT_IN) -> sql_meaning s = Some op -> spelled s = Some (SOp op).
+Proof.
+  intros Hop M. unfold spelled.
+  assert (N : forall k, String.eqb s k = true -> sql_meaning s = sql_meaning k)
+    by (intros k Q; apply String.eqb_eq in Q; rewrite Q; reflexivity).
+  destruct (String.eqb s "between") eqn:Q1; [rewrite (N _ Q1) in M; vm_compute in M; destruct Hop; subst; discriminate|].
+  destruct (String.eqb s "is_null") eqn:Q2; [rewrite (N _ Q2) in M; vm_compute in M; destruct Hop; subst; discriminate|].
+  destruct (String.eqb s "isnull") eqn:Q3; [rewrite (N _ Q3) in M; vm_compute in M; destruct Hop; subst; discriminate|].
+  destruct (String.eqb s "is_not_null") eqn:Q4; [rewrite (N _ Q4) in M; vm_compute in M; destruct Hop; subst; discriminate|].
+  destruct (String.eqb s "notnull") eqn:Q5; [rewrite (N _ Q5) in M; vm_compute in M; destruct Hop; subst; discriminate|].
+  destruct (String.eqb s "isnotnull") eqn:Q6; [rewrite (N _ Q6) in M; vm_compute in M; destruct Hop; subst; discriminate|].
+  cbn [orb]. rewrite M. reflexivity.
+Qed.
+
+Lemma spelled_in_not_in s :
+  sql_meaning s = Some IN \/ sql_meaning s = Some NOT_IN -> exists op, (op = IN \/ op = NOT_IN) /\ spelled s = Some (SOp op).
+Proof. intros [M|M]; [exists IN|exists NOT_IN]; (split; [auto|apply spelled_value_set; auto]). Qed.
+
+(* a SCALAR where in / not_in take a list is never "a set of one", and a MAPPING is not the set of its keys: the parser
+   refuses both -- hence every API on every table (malformed_raises_everywhere) *)
 Theorem value_set_scalar_raises PA f c s v :
   In (c, CPair (OpStr s) (AVal v)) f -> (sql_meaning (lower s) = Some IN \/ sql_meaning (lower s) = Some NOT_IN) ->
-  exists k, prepare PA f = Err k.
+  prepare PA f = Err EParse.
 Proof.
-  intros I M. unfold prepare. destruct (parse f) as [ps|k] eqn:P; simpl; [|eauto].
-  assert (Sp : exists op, (op = IN \/ op = NOT_IN) /\ spelled (lower s) = Some (SOp op)).
-  { unfold spelled.
-    assert (N : forall k, String.eqb (lower s) k = true -> sql_meaning (lower s) = sql_meaning k)
-      by (intros k Q; apply String.eqb_eq in Q; rewrite Q; reflexivity).
-    destruct (String.eqb (lower s) "between") eqn:Q1; [rewrite (N _ Q1) in M; vm_compute in M; intuition discriminate|].
-    destruct (String.eqb (lower s) "is_null") eqn:Q2; [rewrite (N _ Q2) in M; vm_compute in M; intuition discriminate|].
-    destruct (String.eqb (lower s) "isnull") eqn:Q3; [rewrite (N _ Q3) in M; vm_compute in M; intuition discriminate|].
-    destruct (String.eqb (lower s) "is_not_null") eqn:Q4; [rewrite (N _ Q4) in M; vm_compute in M; intuition discriminate|].
-    destruct (String.eqb (lower s) "notnull") eqn:Q5; [rewrite (N _ Q5) in M; vm_compute in M; intuition discriminate|].
-    destruct (String.eqb (lower s) "isnotnull") eqn:Q6; [rewrite (N _ Q6) in M; vm_compute in M; intuition discriminate|].
-    cbn [orb]. destruct M as [-> | ->]; [exists IN | exists NOT_IN]; auto. }
-  destruct Sp as [op [Hop Sp]].
-  assert (W : well_formed (CPair (OpStr s) (AVal v)) = true).
-  { destruct (parse_strict f) as [[WF _]|[_ Q]]; [eapply WF; eauto|congruence]. }
-  assert (Ip : In {| pcol := c; pop := op; pval := AVal v |} ps).
-  { eapply (parse_in f ps c _ P I). unfold meaning. rewrite Sp. left. reflexivity. }
-  assert (NS : match v with VStr _ => False | _ => True end).
-  { unfold well_formed in W. rewrite Sp in W. destruct Hop as [-> | ->]; destruct v; try exact I0; try discriminate; exact Logic.I. }
-  assert (C : condition PA {| pcol := c; pop := op; pval := AVal v |} = Err EBuild).
-  { unfold condition. simpl. destruct Hop as [-> | ->]; destruct v; simpl; try reflexivity; contradiction. }
-  unfold build. destruct (mapM_in_err (condition PA) ps _ EBuild Ip C) as [k' ->]. simpl. eauto.
+  intros I M. destruct (spelled_in_not_in _ M) as [op [Hop Sp]].
+  assert (W : well_formed (CPair (OpStr s) (AVal v)) = false).
+  { unfold well_formed. rewrite Sp. destruct Hop as [-> | ->]; reflexivity. }
+  unfold prepare. rewrite (malformed_parse_error f c _ I W). reflexivity.
 Qed.
+
+Theorem value_set_mapping_raises PA f c s vs :
+  In (c, CPairIter (OpStr s) IMap vs) f -> (sql_meaning (lower s) = Some IN \/ sql_meaning (lower s) = Some NOT_IN) ->
+  prepare PA f = Err EParse.
+Proof.
+  intros I M. destruct (spelled_in_not_in _ M) as [op [Hop Sp]].
+  assert (W : well_formed (CPairIter (OpStr s) IMap vs) = false).
+  { unfold well_formed. rewrite Sp. destruct Hop as [-> | ->]; reflexivity. }
+  unfold prepare. rewrite (malformed_parse_error f c _ I W). reflexivity.
+Qed.
+
+(* ------------------------------------------------------------------ value sets of every iterable kind *)
+(* two conditions that differ only in WHAT HOLDS the in / not_in value set: some iterable that is not a mapping -- a set,
+   a dict view, a range, an iterator or a generator that can be read only once -- against the list of the same values *)
+Inductive same_cond : cond -> cond -> Prop :=
+| sc_same cd : same_cond cd cd
+| sc_iter s ik vs :
+    ik <> IMap -> (sql_meaning (lower s) = Some IN \/ sql_meaning (lower s) = Some NOT_IN) ->
+    same_cond (CPairIter (OpStr s) ik vs) (CPair (OpStr s) (AList vs)).
+
+Definition same_filter (f f' : pyfilter) : Prop := Forall2 (fun x y => fst x = fst y /\ same_cond (snd x) (snd y)) f f'.
+
+Lemma parse_one_same c cd cd' : same_cond cd cd' -> parse_one c cd = parse_one c cd'.
+Proof.
+  intros [cd0|s ik vs NM M]; [reflexivity|].
+  destruct (spelled_in_not_in _ M) as [op [Hop Sp]].
+  rewrite !parse_one_spec. unfold well_formed, meaning. rewrite Sp.
+  destruct Hop as [-> | ->]; destruct ik; try reflexivity; contradiction.
+Qed.
+
+(* the FilterExpressions -- hence the expression every API evaluates AND the expressions file pruning reads -- are those
+   of the list: the value set is read once, when the filter is parsed *)
+Theorem parse_same f f' : same_filter f f' -> parse f = parse f'.
+Proof.
+  induction 1 as [|[c cd] [c' cd'] f f' [Hc Hs] _ IH]; [reflexivity|].
+  simpl in Hc, Hs. subst c'. simpl. rewrite (parse_one_same c cd cd' Hs), IH. reflexivity.
+Qed.
+
+Section ValueSetKind.
+  Variable X : value -> value -> bool.
+  Variable E : cexpr -> row -> bool.
+  Variable B : cexpr -> bool.
+  Variable PA : parg -> bool.
+  Variable sch : list Z.
+  Variable ids : list (Z * Z).
+  Variable bounds : file -> list (Z * value) * list (Z * value).
+
+  Theorem value_set_kind_irrelevant f f' :
+    same_filter f f' ->
+    forall v split cols files,
+      scan_table X E B PA sch ids bounds v cols f files = scan_table X E B PA sch ids bounds v cols f' files
+      /\ scan_batches X E B PA sch ids bounds split cols f files = scan_batches X E B PA sch ids bounds split cols f' files
+      /\ iter_records X E B PA sch ids bounds cols f files = iter_records X E B PA sch ids bounds cols f' files.
+  Proof.
+    intros S v split cols files. pose proof (parse_same f f' S) as P.
+    unfold iter_records, scan_table, scan_batches, prepare. rewrite P. auto.
+  Qed.
+End ValueSetKind.
+
+(* WHY the value set has to be read once: what the two readers of the unrepaired code saw of a one-shot iterable -- the
+   expression builder (first iteration) every value, file pruning (second iteration) none *)
+Theorem one_shot_second_reading_empty vs : iterate IOnce vs 0 = vs /\ iterate IOnce vs 1 = [] /\ iterate IAgain vs 1 = vs.
+Proof. repeat split. Qed.
 
 (* ------------------------------------------------------------------ the empty projection *)
 Theorem api_agree_empty_projection_refuted :
